@@ -18,7 +18,9 @@ type Ident struct {
 	SQL  string // as written
 }
 
-var bareNames = []string{"a", "b", "c", "d", "e", "f", "g", "x1", "y_2", "Name", "VALUE", "é", "naïve", "col_é", "日本", "rowid", "oid", "_rowid_", "Ab", "data", "ü", "ñ1", "Ωmega", "ÉCOLE", "ж"}
+var bareNames = []string{"a", "b", "c", "d", "e", "f", "g", "x1", "y_2", "Name", "VALUE", "é", "naïve", "col_é", "日本", "rowid", "oid", "_rowid_", "Ab", "data", "ü", "ñ1", "Ωmega", "ÉCOLE", "ж",
+	// bytes >= 0x80 are identifier characters to SQLite whatever Unicode calls them (spaces, digits, symbols)
+	"a\u00a0b", "x\u0085", "\u3000z", "w\u2003w", "smile😀", "n٣", "٣n", "p·q", "€"}
 var quotedNames = []string{"select", "my col", "a\"b", "from", "a]b", "x`y", "tab,le", "1st", "é é", "primary", "key", "(", "a'b", "", "x.y", "--c", "q\"", "tick`", "\"\"", "end]x", "it's"}
 
 func quote(name string, style int) string {
@@ -205,6 +207,10 @@ type Opts struct {
 func GenIndexedCols(t *rapid.T, cols []Ident, max int, label string) string {
 	n := rapid.IntRange(1, min(max, len(cols))).Draw(t, label+"n")
 	perm := rapid.Permutation(cols).Draw(t, label+"p")[:n]
+	if rapid.IntRange(0, 7).Draw(t, label+"rep") == 0 {
+		// a column may be listed twice (PRIMARY KEY (a, b, a) is legal)
+		perm = append(perm, perm[rapid.IntRange(0, len(perm)-1).Draw(t, label+"repi")])
+	}
 	var parts []string
 	for _, c := range perm {
 		s := Ref(t, c, label)
@@ -388,7 +394,11 @@ func GenIndex(t *rapid.T, name Ident, tb Table, unique, exprs, partial bool) Ind
 			s = GenExpr(t, ids, rapid.IntRange(0, 3).Draw(t, "iexprsimple") > 0)
 			ix.Plain = append(ix.Plain, false)
 		} else {
-			s = Ref(t, perm[i], "ic")
+			c := perm[i]
+			if i > 0 && rapid.IntRange(0, 7).Draw(t, "icrep") == 0 {
+				c = perm[rapid.IntRange(0, i-1).Draw(t, "icrepi")] // a column listed twice
+			}
+			s = Ref(t, c, "ic")
 			ix.Plain = append(ix.Plain, true)
 		}
 		ix.Exprs = append(ix.Exprs, s)
